@@ -5,7 +5,7 @@ real multiprocessing.Pipe() channels), and the property oracle.
 A case is {'ops': 's0.0 p1 b0 u0 …', 'n': <number of channels>, 'duplex': 0|1}.
 Tokens:  s<id>.<ch> SUBSCRIBE event for sub id <id> carrying the sending end of channel <ch>
          u<id>      UNSUBSCRIBE event
-         p<e>       published event number <e> (event_name = 5 + e % 7, payload {'n': e})
+         p<e>       published event number <e> (event_name = one of the 7 non-protocol names, payload {'n': e})
          r<ch>      the reader of <ch> reads everything readable now
          b<ch>      the reader of <ch> drains its channel, then closes its end   (breakage, nothing unread)
          B<ch>      the reader of <ch> closes its end with whatever is unread pending (breakage)
@@ -26,7 +26,7 @@ THEOREMS = [
     'Px.Disp.C18_exact', 'Px.Disp.C18_isolation', 'Px.Disp.C18_isolation_owner',
     'Px.Disp.C18_no_closed_send', 'Px.Disp.C18_general', 'Px.Disp.C18_shape',
 ]
-EXH_LEN = 5
+EXH_LEN = 6
 RULE = ('history of subscribe/unsubscribe/publish/reader-read/reader-close operations run on the real '
         'EventDispatcher.handle_event over real multiprocessing.Pipe channels and on the model; thorough = ALL '
         'fresh-channel histories of length <= %d over sub ids {0,1,2} (unsub also of unknown id 9; breakage '
@@ -64,17 +64,26 @@ def parse(case):
     return out
 
 
+def _ev_name(e):
+    """event name carried by published event number e: every name except the four of the subscription protocol"""
+    from proxy.core.event import eventNames as N
+    names = [N.DISPATCHER_SHUTDOWN, N.WORK_STARTED, N.WORK_FINISHED, N.REQUEST_COMPLETE,
+             N.RESPONSE_HEADERS_COMPLETE, N.RESPONSE_CHUNK_RECEIVED, N.RESPONSE_COMPLETE]
+    return names[e % len(names)]
+
+
 def _tok(m):
     """canonical name of a received message"""
+    from proxy.core.event import eventNames as N
     if not isinstance(m, dict):
         return 'BAD'
-    if m == {'event_name': 2}:
+    if m == {'event_name': N.SUBSCRIBED}:
         return 'S'
-    if m == {'event_name': 4}:
+    if m == {'event_name': N.UNSUBSCRIBED}:
         return 'U'
     try:
         e = m['event_payload']['n']
-        if m == {'event_name': 5 + e % 7, 'event_payload': {'n': e}}:
+        if m == {'event_name': _ev_name(e), 'event_payload': {'n': e}}:
             return str(e)
     except Exception:
         pass
@@ -119,7 +128,7 @@ def execute(case):
             elif k == 'u':
                 ev = {'event_name': eventNames.UNSUBSCRIBE, 'event_payload': {'sub_id': str(op[1])}}
             elif k == 'p':
-                ev = {'event_name': 5 + op[1] % 7, 'event_payload': {'n': op[1]}}
+                ev = {'event_name': _ev_name(op[1]), 'event_payload': {'n': op[1]}}
             else:
                 c = op[1]
                 if k == 'r':
